@@ -143,7 +143,18 @@ class Hist:
             return "".join(r.choice(ALPHA) for _ in range(r.randint(0, 4)))
         # white space at either end matters where the serialization has a separator next to the data (<?t data?>)
         return r.choice(["t", "ab", "x y", "é", "12", "", "a-b", "a]]", ">b", "]", "]>x", "a-x-b", "ab-c", "]]x>",
-                         " x", "  x y ", "\n\tz", "\tq ", " ", "x\r\ny", "\u00a0x"])
+                         " x", "  x y ", "\n\tz", "\tq ", " ", "x\r\ny", "\u00a0x",
+                         # both kinds of quote (an attribute value that holds them has to be written with a reference)
+                         "it's \"so\"", "\"", "'", "'\""])
+
+    def attr_value(self):
+        """a string handed to setAttribute / Attr.value: like data(), or text with references (declared, undeclared, numeric) -
+        a value that parses as an attribute value but refers to an unknown entity is refused as a whole"""
+        r = self.r
+        if r.random() < 0.55:
+            return self.data()
+        return r.choice(["new &nosuch; text", "1&amp;2&bad;3", "&lt;ok&gt;", "&#65;&#x42;", "a&amp;b", "x&#60;y", "&quot;q&quot;",
+                         "it's \"q\"", "&amp;&amp;", "a&amp", "&#0;", "&#x10FFFF;z", "v&gt;w&apos;"])
 
     def h(self, i):
         return "h%d" % i
@@ -288,7 +299,7 @@ class Hist:
         if k < 0.72:
             names = ["x", "y", "id", "k"] + (["p:x", "q:x", "q:x", "p:y"] if getattr(self, "with_ns", False) else [])
             return "sa:%s:%s:%s" % (self.h(self.pick(("elem",))), enc2(r.choice(names) if r.random() > 0.1 else self.name()),
-                                    enc2(self.data()))
+                                    enc2(self.attr_value()))
         if k < 0.75:
             # removeAttribute, or the same through the element's NamedNodeMap (NOT_FOUND_ERR when there is none)
             return "%s:%s:%s" % (r.choice(["ra", "ra", "rni"]), self.h(self.pick(("elem",))), enc2(r.choice(["x", "y", "id", "k", "zz"])))
@@ -306,7 +317,8 @@ class Hist:
             self.shadow.append(r.choice(["text", "elem", "comment", None]))
             return "ch:%s:%d" % (self.h(self.pick(containers)), r.choice([0, 0, 1, 2, 5]))
         if k < 0.90:
-            return "sv:%s:%s" % (self.h(self.pick(("attr", "text", "comment", "cdata", "pi"))), enc2(self.data()))
+            tgt = self.pick(("attr", "attr", "text", "comment", "cdata", "pi"))
+            return "sv:%s:%s" % (self.h(tgt), enc2(self.attr_value() if tgt < len(self.shadow) and self.shadow[tgt] == "attr" else self.data()))
         cd = ("text", "comment", "cdata")
         off = lambda: r.choice(["0", "0", "1", "2", "3", "7", "M"])
         if k < 0.92:
@@ -321,6 +333,23 @@ class Hist:
             return "rd:%s:%s:%s:%s" % (self.h(self.pick(cd)), off(), off(), enc2(self.data()))
         self.shadow.append("text")
         return "st:%s:%s" % (self.h(self.pick(("text", "cdata"))), off())
+
+    def deep_chain_up(self, depth):
+        """the same bottom-up: each created element takes the chain built so far as its child (the HEIGHT of the argument
+        grows), then the whole chain goes below the document element"""
+        ops = []
+        first = len(self.shadow)
+        for i in range(depth):
+            ops.append("ce:m")
+            self.shadow.append("elem")
+        for i in range(1, depth):
+            ops.append("ap:%s:%s" % (self.h(first + i), self.h(first + i - 1)))
+        root = [h for h in self.kids.get(0, []) if self.shadow[h] == "elem"]
+        if root:
+            ops.append("ap:%s:%s" % (self.h(root[0]), self.h(first + depth - 1)))
+            ops.append("ap:%s:%s" % (self.h(root[0]), self.h(first + depth // 2)))
+            ops.append("ib:%s:%s:-" % (self.h(first + depth // 2), self.h(first + depth - 2)))
+        return ops
 
     def deep_chain(self, depth):
         """created elements appended one below the other: a tree deeper than any the parser accepts"""
